@@ -1,5 +1,6 @@
 import PGT.Proofs.FromFlat
 import PGT.Proofs.FromUniform
+import PGT.Proofs.FromConforms
 /-
 C05 – Null and unknown Terraform values reset the target to zero or nil.
 Full statement: `C05_full`. Proved: the scalar template for all attribute values and all prior structs
@@ -151,5 +152,40 @@ theorem C05_null_resets_example :
      | .ok r => r.diags.isEmpty && (match r.obj.field? "L" with | some (.slice (some [])) => true | _ => false)
      | _ => false) = true := by
   decide
+
+/-- **C05, "returns no error diagnostic" – every message, every template, every depth.** For any object that conforms to the
+schema (`ConformsAttrs`: every attribute of every visited object present and of the Go type the emitted assertion expects; null
+and unknown allowed at every level – attributes, nested objects, lists, maps, their elements –, any payload under them; known
+scalars castable) and any prior content of the target, CopyFrom succeeds and returns no diagnostic. Oneof branches, children
+of nullable embedded messages and custom types included. (`PGT/Proofs/FromConforms.lean`, mutual induction.) -/
+theorem C05_no_diagnostics (ov : List (String × String)) (m : Msg) (u n : Bool) (attrs : Option (List (String × TfVal)))
+    (atys : Option (List (String × TfTy))) (prior : List (String × GoVal)) (h : ConformsAttrs m.fields (attrs.getD [])) :
+    ∃ r, copyFrom ov m (.obj u n attrs atys) (.struct prior) = .ok r ∧ r.diags = [] :=
+  copyFrom_conforming_quiet ov m u n attrs atys prior h
+
+/-- non-vacuity: a string and a list of strings; the object holds an unknown string with a payload and a known list with a
+null element -/
+def cfFields : List Field :=
+  [{ info := { name := "S", nameSnake := "s", kind := .primitive, protoType := "string",
+               tf := { valueType := "github.com/hashicorp/terraform-plugin-framework/types.String",
+                       elemValueType := "github.com/hashicorp/terraform-plugin-framework/types.String",
+                       valueCastToType := "string", valueCastFromType := "string", zeroValue := "\"\"" } } },
+   { info := { name := "L", nameSnake := "l", kind := .primitiveList, isRepeated := true, protoType := "string",
+               tf := { valueType := "github.com/hashicorp/terraform-plugin-framework/types.List",
+                       elemValueType := "github.com/hashicorp/terraform-plugin-framework/types.String",
+                       valueCastToType := "string", valueCastFromType := "string", zeroValue := "\"\"" } } }]
+def cfAttrs : List (String × TfVal) :=
+  [("s", .prim .string true false (.str [120])),
+   ("l", .list false false (some [.prim .string false true (.str []), .prim .string false false (.str [121])]) none)]
+
+theorem C05_no_diagnostics_example : ConformsAttrs cfFields cfAttrs := by
+  simp only [cfFields, ConformsAttrs, Conforms, cfAttrs, List.lookup]
+  refine ⟨Or.inr ⟨_, rfl, .string, true, false, .str [120], rfl, by decide, by simp [known]⟩,
+    Or.inr ⟨_, rfl, false, false, _, none, rfl, by decide, ?_⟩, trivial⟩
+  intro _ e he
+  simp only [Option.getD, List.mem_cons, List.mem_nil_iff, or_false] at he
+  rcases he with rfl | rfl
+  · exact ⟨.string, false, true, .str [], rfl, by decide, by simp [known]⟩
+  · exact ⟨.string, false, false, .str [121], rfl, by decide, fun _ => ⟨.str [121], by decide⟩⟩
 
 end PGT.Props.C05
